@@ -86,7 +86,7 @@ def policyArm (rc : Int) : Option (Nat × Nat) :=
   else none
 
 /-- everything of `eav_is_email` after the callback returned `r`: (return value, errcode, idnmsg) -/
-def decide (allowTld : Nat) (r : Result) : Except Fault (Int × Nat × Option Int) :=
+def verdictOf (allowTld : Nat) (r : Result) : Except Fault (Int × Nat × Option Int) :=
   if r.rc == 0 then .ok (1, 0, none)
   else if r.rc < 0 then
     let ec := (-r.rc).toNat
@@ -109,7 +109,7 @@ def eavIsEmail (b : Build) (conv : List Nat → Conv) (st : State) (email : List
                 else match e.asciiCb with | some m => pure m | none => .error .nullcb)
     let r ← isEmail b conv mode email e.tldCheck
     let st2 := { st1 with liveResults := st1.liveResults + 1 }
-    let (ret, ec, msg) ← decide e.allowTld r
+    let (ret, ec, msg) ← verdictOf e.allowTld r
     return ({ st2 with obj := some { e with result := some r, errcode := ec, idnmsg := msg } }, ret)
 
 def eavErrstr (st : State) : Except Fault Msg :=
